@@ -848,6 +848,75 @@ func TestVerifC06ZoneDST(t *testing.T) {
 		fmt.Sprintf("%d cases", len(space)), len(space), func(i int) c06Case { return space[i] }, checkC06)
 }
 
+// a layout with a zone abbreviation, in a process zone that knows the abbreviation: a record and a bound written with the
+// same text are the same instant, so the day equal to a bound is inside the period and `summary` of that text shows it
+
+type c06AbbrCase struct {
+	Zone string `json:"zone"`
+	Abbr string `json:"abbr"`
+	Cmd  int    `json:"cmd"` // 0 reg -b, 1 reg -e, 2 csv log with -b and -e on the command, 3 summary, 4 bal -b global
+	Hour int    `json:"hour"`
+}
+
+func checkC06Abbr(c c06AbbrCase, ctx *vCtx) *vFailure {
+	layout := "2006/01/02 15:04 MST"
+	head := func(d int) string { return fmt.Sprintf("%s %02d:00 %s", vFmtDay(d, ""), c.Hour, c.Abbr) }
+	var lb strings.Builder
+	for d := 3; d <= 7; d++ {
+		fmt.Fprintf(&lb, "%s:\n  food of day %d: %d\n", head(d), d, d)
+	}
+	lp := vWriteFile("c06-abbr-log.yaml", lb.String())
+	bp := vWriteFile("c06-abbr-book.yaml", "unused:\n  x: 1\n")
+	base := []string{"--today", head(9), "--date-format", layout, "-d", bp, "-l", lp, "--no-color"}
+	var args []string
+	want := map[int]bool{}
+	switch c.Cmd {
+	case 0:
+		args = append(base, "reg", "-b", head(5))
+		want = map[int]bool{5: true, 6: true, 7: true}
+	case 1:
+		args = append(base, "reg", "-e", head(5))
+		want = map[int]bool{3: true, 4: true, 5: true}
+	case 2:
+		args = append(base, "csv", "log", "-b", head(4), "-e", head(6))
+		want = map[int]bool{4: true, 5: true, 6: true}
+	case 3:
+		args = append(base, "summary", head(5))
+		want = map[int]bool{5: true}
+	default:
+		args = append(append([]string{"-b", head(6)}, base...), "bal")
+		want = map[int]bool{6: true, 7: true}
+	}
+	r := vRunApp(vInvocation{Args: args, TZ: c.Zone})
+	ctx.Run(1)
+	ctx.NonTrivial(true)
+	ctx.Label("zone:" + c.Zone)
+	if r.Failed {
+		return vFailf("%v under TZ=%s fails: %s", args, c.Zone, r.Err)
+	}
+	for d := 3; d <= 7; d++ {
+		shown := strings.Contains(r.Stdout, fmt.Sprintf("food of day %d", d))
+		if shown != want[d] {
+			return vFailf("%v under TZ=%s: the record headed %q is shown=%v, expected %v (a bound written like a heading is the same instant; the period is inclusive)\n%s", args, c.Zone, head(d), shown, want[d], vTrunc(r.Stdout, 800))
+		}
+	}
+	return nil
+}
+
+func TestVerifC06Abbr(t *testing.T) {
+	var space []c06AbbrCase
+	for _, z := range [][2]string{{"America/Denver", "MST"}, {"Europe/Berlin", "CET"}, {"Asia/Tokyo", "JST"}, {"UTC", "UTC"}, {"UTC", "CET"}, {"America/New_York", "EST"}, {"Europe/Berlin", "MST"}} {
+		for cmd := 0; cmd < 5; cmd++ {
+			for _, h := range []int{0, 8, 23} {
+				space = append(space, c06AbbrCase{Zone: z[0], Abbr: z[1], Cmd: cmd, Hour: h})
+			}
+		}
+	}
+	vEnum(t, "C06", "c06.zoneabbr",
+		"date layout with a zone abbreviation (2006/01/02 15:04 MST), process zones that know the abbreviation written in the log (Denver/MST, Berlin/CET, Tokyo/JST, New York/EST) and that do not (UTC/CET, Berlin/MST), five records in January, bounds and summary argument written exactly like a heading; oracle: the day equal to a bound is inside, the others by order",
+		fmt.Sprintf("%d combinations", len(space)), len(space), func(i int) c06AbbrCase { return space[i] }, checkC06Abbr)
+}
+
 func TestVerifC06NowDST(t *testing.T) {
 	var space []c06NowCase
 	type tr struct {
@@ -874,6 +943,7 @@ func TestVerifC06NowDST(t *testing.T) {
 
 func init() {
 	vRegister("C06", "c06.nowdst", checkC06NowDST)
+	vRegister("C06", "c06.zoneabbr", checkC06Abbr)
 	vRegister("C06", "c06.zonedst", checkC06)
 	vRegister("C06", "c06.dst", checkC06)
 	vRegister("C06", "c06.random", checkC06)
